@@ -125,19 +125,23 @@ def run(ctx):
     # ------------------------------------------------------------ unknown-name routing precedence
     f = ctx.fn("darling_core::codegen::variant_data::FieldsGen::<'a>::core_loop")
     if f:
-        T = tpl.Templates(f)
         n = 0
-        for tk in T.all_tokens(("ident",)):
-            if tk.text == "__flatten":
-                n += 1
-                ctx.requires("C01.G.route-flatten-first", f, tk.blk, "__flatten.push", [r"Iterator>::any\(.*\)=True"])
-            if tk.text in ("unknown_field", "unknown_field_with_alts"):
-                n += 1
-                ctx.requires("C01.G.route-error-last", f, tk.blk, "unknown-field error", [r"Iterator>::any\(.*\)=False", r"self\.allow_unknown_fields=False"])
+        anyc = []
+        # the routing of unknown names may be generated in core_loop itself or in a helper it calls
+        for g in [f] + ctx.local_callees(f, depth=1):
+            T = tpl.Templates(g)
+            for tk in T.all_tokens(("ident",)):
+                if tk.text == "__flatten":
+                    n += 1
+                    ctx.requires("C01.G.route-flatten-first", g, tk.blk, "__flatten.push", [r"Iterator(>)?::any\(.*\)=True"])
+                if tk.text in ("unknown_field", "unknown_field_with_alts"):
+                    n += 1
+                    ctx.requires("C01.G.route-error-last", g, tk.blk, "unknown-field error", [r"Iterator(>)?::any\(.*\)=False", r"self\.allow_unknown_fields=False"])
+            # the `any` closure tests the flatten flag
+            anyc += [c for c in ctx.closures_of(g) if ctx.true_conditions(c) == [{"a2.flatten=True"}] and any(c.key in ctx.expr(g, t["args"][1]) for _, t in ctx.find_calls(g, r"Iterator(>)?::any$"))]
         ctx.floor("C01.G.route", "routing templates in core_loop", n, 3)
-        # the `any` closure tests the flatten flag
-        anyc = [c for c in ctx.closures_of(f) if ctx.ret_values(c) == ["a2.flatten"]]
-        ctx.ob("C01.G.route-any-is-flatten", f.key, "any(|f| f.flatten)", len(anyc) == 1, "closures returning f.flatten: %d" % len(anyc))
+        ctx.ob("C01.G.route-any-is-flatten", f.key, "any(|f| f.flatten)", len(anyc) == 1, "`any` closures testing f.flatten: %d" % len(anyc))
+        T = tpl.Templates(f)
         txt = " ".join(T.render(T.root_streams()[-1])) if T.root_streams() else ""
         ok = bool(re.search(r"let __name = :: darling :: util :: path_to_string \( __inner \. path \( \) \) ; match __name \. as_str \( \) \{ .* __other => \{", txt))
         ctx.ob("C01.H.dispatch-on-item-name", f.key, "match path_to_string(__inner.path())", ok, txt[:300])
